@@ -12,10 +12,12 @@ pub struct Cfg {
     pub unicode: bool,
     pub depth: u32,
     pub size: u32,
+    /// only constructs whose evaluation cannot fail (C07/C08/C09-style checks want output, not errors)
+    pub safe: bool,
 }
 impl Default for Cfg {
     fn default() -> Self {
-        Cfg { wild: true, unicode: true, depth: 4, size: 24 }
+        Cfg { wild: true, unicode: true, depth: 4, size: 24, safe: false }
     }
 }
 
@@ -23,7 +25,12 @@ fn prop_name() -> BoxedStrategy<String> {
     one_of(&["color", "width", "margin", "font", "b", "c", "--x", "--y-z", "-moz-k", "grid-area", "content", "filter", "a#{1}", "#{\"p\"}", "x-#{y}", "*zoom", "_hack"])
 }
 
+pub const SAFE_PRELUDE: &str = "@use \"sass:math\";\n$a: 1px; $b: (k: v, 2: 3); $c: a b c;\n@function f($x: 1) { @return $x * 2; }\n@mixin m($x: 1, $y...) { mx: $x; my: $y; @content; }\n@mixin n($s: 2) { ns: $s; @content($s); }\n";
+
 fn value(cfg: Cfg) -> BoxedStrategy<String> {
+    if cfg.safe {
+        return val::safe();
+    }
     if cfg.wild {
         val::expr()
     } else {
@@ -48,6 +55,19 @@ fn comment(cfg: Cfg) -> BoxedStrategy<String> {
 
 fn leaf_stmt(cfg: Cfg) -> BoxedStrategy<String> {
     let v = value(cfg);
+    if cfg.safe {
+        return prop_oneof![
+            10 => (one_of(&["color", "width", "margin", "font", "b", "c", "-moz-k", "grid-area", "content", "filter", "a#{1}", "#{\"p\"}", "x-#{y}", "é"]), v.clone()).prop_map(|(p, v)| format!("{p}: {v};")),
+            2 => (prop_name(), v.clone()).prop_map(|(p, v)| if p.starts_with("--") { format!("{p}: {v};") } else { format!("{p}:{v} !important;") }),
+            2 => one_of(&["--x: {a: b};", "--y: [1, 2] ;", "--z:  spaced   value ;", "--w: #{1 + 1};", "--q: \"é\";", "--r: a  b\n    c;", "--s: 1.50;", "--t: #ABCDEF;", "--u:#{red};"]),
+            3 => (one_of(&["$a", "$b", "$c", "$d"]), v.clone(), one_of(&["", "", " !default", " !global"])).prop_map(|(n, v, f)| if n == "$d" || f.is_empty() && n == "$d" { format!("$d: {v}{f};") } else { format!("$d: {v}; {n}: {n}{f};") }),
+            3 => comment(cfg),
+            1 => v.clone().prop_map(|v| format!("@debug {v};")),
+            2 => one_of(&["@include m;", "@include m(1);", "@include m($x: 2);", "@include m(1, 2, 3);", "@include n using ($s) { d: $s; }", "@include n(5) using ($s) { d: $s * 2; }", "@include m { in: content; }"]),
+            1 => one_of(&["@import \"x.css\";", "@import url(y);", "@import \"http://z\";", "@import \"b.css\" screen;", "@charset \"utf-8\";"]),
+        ]
+        .boxed();
+    }
     prop_oneof![
         8 => (prop_name(), v.clone()).prop_map(|(p, v)| format!("{p}: {v};")),
         2 => (prop_name(), v.clone()).prop_map(|(p, v)| format!("{p}:{v} !important;")),
@@ -68,7 +88,42 @@ fn media_query() -> BoxedStrategy<String> {
     one_of(&["screen", "print and (min-width: 10px)", "(min-width: #{10px})", "not all", "only screen and (orientation: landscape), print", "(a: b) and (c: d)", "screen and (max-width: $a)", "#{\"tv\"}", "(100px <= width <= 200px)"])
 }
 
+fn safe_stmt(cfg: Cfg) -> BoxedStrategy<String> {
+    let v = value(cfg);
+    leaf_stmt(cfg)
+        .prop_recursive(cfg.depth, cfg.size, 4, move |inner| {
+            let body = proptest::collection::vec(inner.clone(), 0..4).prop_map(|v| v.join("\n"));
+            let v = v.clone();
+            let selector = prop_oneof![4 => sel::safe_list(), 1 => one_of(&["&.k", "&.k", "&:hover", "&:hover", "& > i", "i &", "& b", "&-x", "&__e", ":not(&)", "& + &", "#{\".z\"}", "a#{\"b\"}", ".é", "%ph", "%ph, .real"])];
+            prop_oneof![
+                8 => (selector, body.clone()).prop_map(|(s, b)| format!("{s} {{\n{b}\n}}")),
+                2 => (one_of(&["font", "margin", "border"]), prop_oneof![Just(String::new()), v.clone()], proptest::collection::vec((one_of(&["family", "size", "top", "x-y"]), v.clone()), 1..3)).prop_map(|(p, v, ds)| {
+                    let b = ds.iter().map(|(n, v)| format!("{n}: {v};")).collect::<Vec<_>>().join("\n");
+                    if v.is_empty() { format!("{p}: {{\n{b}\n}}") } else { format!("{p}: {v} {{\n{b}\n}}") }
+                }),
+                3 => (one_of(&["screen", "print and (min-width: 10px)", "(min-width: #{10px})", "not all", "only screen and (orientation: landscape), print", "screen and (max-width: $a)"]), body.clone()).prop_map(|(q, b)| format!("@media {q} {{\n{b}\n}}")),
+                2 => (one_of(&["(display: grid)", "not (a: b)", "(a: b) and (c: $a)"]), body.clone()).prop_map(|(q, b)| format!("@supports {q} {{\n{b}\n}}")),
+                2 => (one_of(&["@foo", "@foo bar", "@layer base", "@container (min-width: 1px)", "@foo #{1 + 1},\n  baz"]), body.clone()).prop_map(|(q, b)| format!("{q} {{\n{b}\n}}")),
+                1 => Just("@font-face {\n font-family: \"é\";\n src: url(x.woff);\n}".to_string()),
+                1 => (one_of(&["k", "#{\"n\"}"]), v.clone()).prop_map(|(n, v)| format!("@keyframes {n} {{\n from {{ a: b }}\n 50%, 75.5% {{\n w: {v};\n}}\n to {{ c: d }}\n}}")),
+                2 => (prop_oneof![Just(String::new()), sel::safe_list()], body.clone()).prop_map(|(s, b)| format!("@at-root {s} {{\n{b}\n}}")),
+                3 => (one_of(&["true", "false", "null", "1 < 2", "$a == 1px", "not $a"]), body.clone(), proptest::option::of(body.clone())).prop_map(|(c, b, e)| match e {
+                    Some(b2) => format!("@if {c} {{\n{b}\n}} @else {{\n{b2}\n}}"),
+                    None => format!("@if {c} {{\n{b}\n}}"),
+                }),
+                2 => (one_of(&["$x in 1 2", "$x in $c", "$k, $v in $b", "$x in (a, b)", "$x in ()"]), body.clone()).prop_map(|(h, b)| format!("@each {h} {{\n{b}\nex: $x;\n}}").replace("ex: $x;\n}", if h.starts_with("$k") { "ek: $k;\n}" } else { "ex: $x;\n}" })),
+                2 => (0i32..3, 0i32..3, any::<bool>(), body.clone()).prop_map(|(a, z, thr, b)| format!("@for $i from {a} {} {z} {{\n{b}\nfi: $i;\n}}", if thr { "through" } else { "to" })),
+                1 => (1u32..3, body.clone()).prop_map(|(n, b)| format!("$w: {n} !global;\n@while $w > 0 {{\n$w: $w - 1 !global;\n{b}\n}}")),
+                2 => (one_of(&["m", "n using ($s)", "m(1, 2)", "n($s: 3) using ($t)"]), body.clone()).prop_map(|(n, b)| format!("@include {n} {{\n{b}\n}}")),
+            ]
+        })
+        .boxed()
+}
+
 pub fn stmt(cfg: Cfg) -> BoxedStrategy<String> {
+    if cfg.safe {
+        return safe_stmt(cfg);
+    }
     let v = value(cfg);
     leaf_stmt(cfg)
         .prop_recursive(cfg.depth, cfg.size, 4, move |inner| {
@@ -106,6 +161,10 @@ pub fn stmt(cfg: Cfg) -> BoxedStrategy<String> {
 
 /// a whole stylesheet
 pub fn sheet(cfg: Cfg) -> BoxedStrategy<String> {
+    if cfg.safe {
+        let top = (stmt(cfg), sel::safe_list(), 0u8..8).prop_map(|(st, sel, k)| if k < 7 { format!("{sel} {{\n{st}\n}}") } else { format!("y {{ z: 1 }}\n@media screen {{ q {{\n{st}\n}} }}") });
+        return proptest::collection::vec(top, 1..6).prop_map(|v| format!("{SAFE_PRELUDE}{}\n", v.join("\n"))).boxed();
+    }
     let top = (stmt(cfg), sel::list(), 0u8..8).prop_map(|(st, sel, k)| if k < 6 { format!("{sel} {{\n{st}\n}}") } else { st });
     (proptest::collection::vec(top, 1..6), any::<bool>())
         .prop_map(|(v, uses)| {
